@@ -12,13 +12,72 @@ def run(chk, drv):
     quick = chk.tier == "quick"
     chk.extra["rule"] = ("random well-formed schemas (all 18 field kinds × singular/optional/repeated/oneof/map, wrappers, Timestamp/Duration, "
                          "recursive messages), values biased to boundaries and to default-but-present members; plus messages that went through parse() "
-                         "with unknown fields. non-trivial = at least one constructor argument; distinct by (schema, value) line")
+                         "with unknown fields; plus messages built by Cls() and filled IN PLACE (lists extended, dicts updated, sub-messages filled through m.sub.x = …) so that "
+                         "serialized_on_wire of the holder stays False. non-trivial = at least one constructor argument; distinct by (schema, value) line")
     nb = 60 if quick else 600
     for bi in range(nb):
         b = W.Batch(chk.rng, "s%d" % bi, 12)
         W.count_features(chk, b)
         one_batch(chk, drv, b)
+        inplace_stage(chk, drv, b)
     scalar_sweep(chk, drv)
+
+
+def fill_inplace(m, b, ci, v, rng, top=True):
+    """fill an existing (default-constructed or lazily materialised) instance WITHOUT assigning to it where
+    possible: lists are extended, dicts updated, sub-messages filled through `m.sub.…` — so the instance's own
+    `_serialized_on_wire` stays False although it has content. Returns the raw model term of the result."""
+    md = b.schema[ci]
+    ow = False
+    slots = []
+    for i, f in enumerate(md.fields):
+        raw = "N" if f.optional else "P"
+        x = v[2].get(i)
+        if x is not None and f.group is None and not f.optional:
+            if f.repeated and x[0] == "l":
+                getattr(m, f.name).extend(bpgen.to_py(x, b.classes, f.ty))
+                raw = bpgen.term(x)
+            elif f.ty == "map" and x[0] == "D":
+                getattr(m, f.name).update(bpgen.to_py(x, b.classes, f.mapV))
+                raw = bpgen.term(x)
+            elif f.ty == "message" and not f.wraps and f.kind.startswith("u") and x[0] == "c" and not f.repeated:
+                raw = fill_inplace(getattr(m, f.name), b, int(f.kind[1:]), x, rng, False)
+            elif f.ty not in ("message", "map") and not f.repeated and (not top or rng.random() < 0.15):
+                setattr(m, f.name, bpgen.to_py(x, b.classes, f.ty))      # an assignment: this instance becomes present
+                raw = bpgen.term(x)
+                ow = True
+        slots.append(raw)
+    return "m %d %d - %d%s %d %s" % (ci, int(ow), md.ngroups, " -" * md.ngroups, len(slots), " ".join(slots))
+
+
+def inplace_stage(chk, drv, b):
+    """messages built by `Cls()` and then filled in place (`m.items.append(x)`, `m.table[k] = v`, `m.sub.n = 1`)"""
+    lines, objs = [], []
+    for v in b.values:
+        ci = v[1]
+        try:
+            m = b.classes[ci]()
+            t = fill_inplace(m, b, ci, v, chk.rng)
+        except Exception as e:
+            chk.count("inplace_skipped_" + type(e).__name__)
+            continue
+        lines += ["DUMP %s %s" % (b.sid, t), "LEN %s %s" % (b.sid, t), "DUMPD %s %s" % (b.sid, t)]
+        objs.append((t, m))
+    replies = drv.ask(lines) if (drv and lines) else None
+    for i, (t, m) in enumerate(objs):
+        o = observe(m)
+        inp = {"schema": b.describe(), "built_in_place": t}
+        nontriv = isinstance(o["bytes"], bytes) and len(o["bytes"]) > 0
+        chk.case(b.schema_line() + "|inplace|" + t, nontriv, {"built_in_place": t[:200]})
+        chk.count("inplace_nonempty" if nontriv else "inplace_empty")
+        oracle(chk, inp, o)
+        if replies:
+            for k, key in enumerate(("bytes", "len", "dumpd")):
+                r = replies[3 * i + k]
+                x = o[key]
+                want = "ERR" if isinstance(x, Exception) else (W.hexs(x) if isinstance(x, bytes) else str(x))
+                if (r[:3] == "ERR") != (want == "ERR") or (want != "ERR" and r != want):
+                    chk.disagree(key + "-inplace", {"schema": b.schema_line(), "value": t}, r, want if want != "ERR" else repr(x))
 
 
 def boundary_ints(ty):
@@ -185,6 +244,12 @@ def search(chk):
 def replay(chk, rp):
     fl = rp.get("failure") or {}
     inp = fl.get("input") or {}
+    if "built_in_place" in inp and "schema" in inp:
+        schema = schema_from_desc(inp["schema"])
+        classes = bpgen.build_bp(schema)
+        c = type(chk)(chk.pid, "quick", 0)
+        oracle(c, inp, observe(from_raw_term(inp["built_in_place"].split(), schema, classes)[0]))
+        return bool(c.oracle_failures)
     if "value" in inp and "schema" in inp:
         schema = schema_from_desc(inp["schema"])
         classes = bpgen.build_bp(schema)
@@ -193,6 +258,32 @@ def replay(chk, rp):
         oracle(c, inp, observe(bpgen.to_py(v, classes)))
         return bool(c.oracle_failures)
     return True
+
+
+def from_raw_term(toks, schema, classes, m=None):
+    """rebuild, in place, the instance a raw `m …` term of `fill_inplace` describes"""
+    assert toks[0] == "m"
+    ci, ow, ncur = int(toks[1]), toks[2] == "1", int(toks[4])
+    rest = toks[5 + ncur:]
+    n, rest = int(rest[0]), rest[1:]
+    md = schema[ci]
+    if m is None:
+        m = classes[ci]()
+    for i in range(n):
+        f = md.fields[i]
+        if rest[0] in ("P", "N"):
+            rest = rest[1:]
+        elif rest[0] == "m":
+            _, rest = from_raw_term(rest, schema, classes, getattr(m, f.name))
+        else:
+            x, rest = parse_term(rest)
+            if x[0] == "l":
+                getattr(m, f.name).extend(bpgen.to_py(x, classes, f.ty))
+            elif x[0] == "D":
+                getattr(m, f.name).update(bpgen.to_py(x, classes, f.mapV))
+            else:
+                setattr(m, f.name, bpgen.to_py(x, classes, f.ty))
+    return m, rest
 
 
 def schema_from_desc(desc):
